@@ -467,7 +467,8 @@ Section W.
   Lemma WI_visit_builtin_call f args : WI (visit_builtin_call E f args).
   Proof.
     unfold visit_builtin_call. destruct f.
-    - eapply WQ_weaken; [|apply WQ_emit_result]; [auto|]. reflexivity.
+    - match goal with |- context [existsb ?g args] => destruct (existsb g args) end; [apply WQ_fail|].
+      eapply WQ_weaken; [|apply WQ_emit_result]; [auto|]. reflexivity.
     - destruct (map ensure_concrete_string args) as [|a [|b [|c r]]]; try apply WQ_fail.
       eapply WQ_bind with (Q1 := fun ty => common_concrete E (td a) (td b) = Some ty).
       { apply WQ_pure; [apply Pure_m_deduce_concrete|]. intros s ty s' H. rewrite <- (m_deduce_concrete_spec E _ _ s). apply succeeds_of with (s' := s'). exact H. }
